@@ -123,7 +123,7 @@ def is_pow(op):
 
 def is_ctrl(op):
     return hasattr(op, "control_wires") and hasattr(op, "base") and hasattr(op, "control_values") and (
-        op.name.startswith("C(") or type(op).__name__ in ("Controlled", "ControlledOp", "ControlledOp2"))
+        op.name.startswith("C(") or type(op).__name__ in ("Controlled", "ControlledOp", "ControlledOp2", "ControlledQubitUnitary"))
 
 
 def encode_op(op, wpos: dict, M: int):
